@@ -108,6 +108,15 @@ def discharge(S, ob, leaf_types=None, invariants=None):
         if isinstance(n, int) and ri[0] >= 0 and ri[1] < n:
             return True, "index in [%d, %d] below length %d" % (ri[0], ri[1], n), iv.used_invariants
         return False, "index range [%d, %d] vs length %s" % (ri[0], ri[1], n), iv.used_invariants
+    if kind == "SliceRange":
+        v, lo, hi = ob["ops"]
+        n = ob.get("len")
+        rlo = iv.range(lo)
+        rn = (n, n) if isinstance(n, int) else iv.range(("len", v))
+        rhi = iv.range(hi) if hi is not None else rn
+        if rlo[0] >= 0 and rlo[1] <= rhi[0] and rhi[1] <= rn[0]:
+            return True, "slice bounds [%d..%d] within length %d" % (rlo[1], rhi[1], rn[0]), iv.used_invariants
+        return False, "slice bounds [%s..%s] not provably within length %s" % (rlo, rhi, rn), iv.used_invariants
     if kind == "Unwrap":
         c = cond[1]
         if bdd.implies(pc, c):
